@@ -125,7 +125,8 @@ pub(crate) enum EndArea {
     TillEnd(LinePos),
     /// end timestamp lies in between the first and second position
     Window(LinePos, MetaPos),
-    /// end lies before this time/point however we have no data between here and it
+    /// end lies in a gap, the data before the gap stops at this point (the start of
+    /// the meta section that follows the gap)
     Gap { start: MetaPos },
 }
 
@@ -311,9 +312,11 @@ impl Index {
 
         // End is not 0 or 1 thus data[end] and data[end-1] exist
         if in_gap(end_ts, self.entries[end - 1].timestamp) {
+            // every line of the section before the gap lies before end_ts,
+            // so the data ends where the section after the gap starts
             return (
                 EndArea::Gap {
-                    start: self.entries[end - 1].meta_start,
+                    start: self.entries[end].meta_start,
                 },
                 self.entries[end - 1].timestamp,
             );
